@@ -188,6 +188,8 @@ pub struct State {
     obj_ordinal: BTreeMap<usize, u64>,
     next_ordinal: u64,
     quarantine: BTreeMap<usize, QInfo>,
+    /// offset of the closure struct inside a closure object (learnt from the first one seen)
+    closure_offset: Option<usize>,
     freed_objects: BTreeSet<usize>,
     guards: BTreeMap<usize, u32>,
     in_gc: bool,
@@ -229,6 +231,7 @@ impl VmCtl {
             obj_ordinal: BTreeMap::new(),
             next_ordinal: 0,
             quarantine: BTreeMap::new(),
+            closure_offset: None,
             freed_objects: BTreeSet::new(),
             guards: BTreeMap::new(),
             in_gc: false,
@@ -439,18 +442,33 @@ impl State {
             push_val(v, "global", "root", &mut seen, &mut work);
         }
         // frame closures: find the object that embeds the closure struct
+        // The closure struct sits at a fixed offset inside its object: learn the offset from the
+        // first closure object seen (scanning everything at every collection is quadratic once
+        // the quarantine has grown), then go from a frame's closure pointer straight to its object.
         let mut closure_objs: BTreeMap<usize, usize> = BTreeMap::new();
-        let known: Vec<usize> = view
-            .object_list
-            .iter()
-            .map(|p| p.as_ptr() as usize)
-            .chain(self.quarantine.keys().copied())
-            .collect();
         if view.frames.iter().any(|f| !f.closure.is_null()) {
-            for p in known.iter() {
-                let o = unsafe { &*(*p as *const CaoLangObject) };
-                if let CaoLangObjectBody::Closure(c) = &o.body {
-                    closure_objs.insert(c as *const _ as usize, *p);
+            if self.closure_offset.is_none() {
+                let known = view.object_list.iter().map(|p| p.as_ptr() as usize).chain(self.quarantine.keys().copied());
+                for p in known {
+                    let o = unsafe { &*(p as *const CaoLangObject) };
+                    if let CaoLangObjectBody::Closure(c) = &o.body {
+                        self.closure_offset = Some(c as *const _ as usize - p);
+                        break;
+                    }
+                }
+            }
+            if let Some(off) = self.closure_offset {
+                let live: BTreeSet<usize> = view.object_list.iter().map(|p| p.as_ptr() as usize).collect();
+                for f in view.frames.iter().filter(|f| !f.closure.is_null()) {
+                    let obj = (f.closure as usize).wrapping_sub(off);
+                    if live.contains(&obj) || self.quarantine.contains_key(&obj) {
+                        let o = unsafe { &*(obj as *const CaoLangObject) };
+                        if let CaoLangObjectBody::Closure(c) = &o.body {
+                            if c as *const _ as usize == f.closure as usize {
+                                closure_objs.insert(f.closure as usize, obj);
+                            }
+                        }
+                    }
                 }
             }
         }
